@@ -85,6 +85,20 @@ pub struct Gen {
     want_reclaim: bool,
     soak_prev: Option<u32>,
     soak_pacing: Option<PacingSpec>,
+    /// the multi-step "move a shell's weak pointer into a black holder mid-mark" script:
+    /// (stage, arena, b, a, t)
+    shell_script: Option<(u8, usize, u32, u32, u32)>,
+}
+
+/// `x` as an exact dyadic rational, if it is one with a small denominator.
+fn dy_exact(x: f64) -> Option<Dy> {
+    for shift in 0..=12u32 {
+        let n = x * (1u64 << shift) as f64;
+        if n.fract() == 0.0 && n.abs() < (1u64 << 40) as f64 {
+            return Some(Dy::new(n as i64, shift));
+        }
+    }
+    None
 }
 
 fn dy(n: i64, s: u32) -> Dy {
@@ -95,7 +109,7 @@ impl Gen {
     pub fn new(seed: u64, profile: Profile, max_ops: usize) -> Gen {
         let mut rng = Rng(seed);
         let narenas = if profile == Profile::Multi { 2 + rng.below(2) } else { 1 };
-        Gen { rng, profile, max_ops, emitted: 0, queue: VecDeque::new(), cb_stack: vec![], narenas, finishing: 0, done: false, want_reclaim: false, soak_prev: None, soak_pacing: None }
+        Gen { rng, profile, max_ops, emitted: 0, queue: VecDeque::new(), cb_stack: vec![], narenas, finishing: 0, done: false, want_reclaim: false, soak_prev: None, soak_pacing: None, shell_script: None }
     }
 
     fn pacing(&mut self) -> PacingSpec {
@@ -208,6 +222,72 @@ impl Gen {
         true
     }
 
+    /// Scenario: during marking, *move* a weak pointer whose target is not (yet) weakly marked — a
+    /// live object or the value-less shell of one destructed in an earlier cycle — from a holder
+    /// the marker has not traced yet into a holder that is already black, through one of the weak
+    /// barrier paths, and clear it in the old holder: from then on only the barrier keeps the
+    /// block queryable through the sweep.
+    fn scenario_move_weak(&mut self, w: &World, ai: usize) -> bool {
+        let sh = &w.arenas[ai].shadow;
+        let cols = &w.arenas[ai].colors;
+        let acc = sh.accessible();
+        let mut cands: Vec<(u32, usize, u32)> = vec![];
+        let mut ids: Vec<u32> = acc.iter().copied().collect();
+        ids.sort();
+        for h in ids {
+            let o = &sh.objs[h as usize];
+            // the old holder: not traced yet (white or queued)
+            if o.dropped == 0 && !o.leaf && matches!(cols.get(&h).map(|c| c.0), Some(b'W') | Some(b'G') | Some(b'w')) {
+                for (k, s) in o.slots.iter().enumerate() {
+                    if let Some(SP::W(t)) = s {
+                        // target not weakly marked yet; shells (destructed earlier) preferred
+                        if sh.objs[*t as usize].freed == 0 && cols.get(t).map(|c| c.0) == Some(b'W') {
+                            cands.push((h, k, *t));
+                            if sh.objs[*t as usize].dropped > 0 {
+                                cands.push((h, k, *t));
+                                cands.push((h, k, *t));
+                            }
+                        }
+                    }
+                }
+            }
+        }
+        let Some((h, k, t)) = self.rng.pick(&cands).copied() else { return false };
+        let mut parents: Vec<u32> = acc.iter().copied().filter(|i| *i != h && !sh.objs[*i as usize].leaf && sh.objs[*i as usize].dropped == 0 && cols.get(i).map(|c| c.0) == Some(b'B')).collect();
+        parents.sort();
+        let Some(p) = self.rng.pick(&parents).copied() else { return false };
+        if !sh.holds(SP::S(h)) {
+            match sh.path_to(h) {
+                Some(path) => path.into_iter().for_each(|op| self.push(ai, op)),
+                None => return false,
+            }
+        }
+        self.push(ai, Op::Read(h, k));
+        if !sh.holds(SP::S(p)) {
+            match sh.path_to(p) {
+                Some(path) => path.into_iter().for_each(|op| self.push(ai, op)),
+                None => return false,
+            }
+        }
+        let i = self.rng.below(3);
+        match self.rng.below(7) {
+            0 => self.push(ai, Op::Store { path: Path::Write, p, i, v: Some(SP::W(t)) }),
+            1 => self.push(ai, Op::Store { path: Path::Stb, p, i, v: Some(SP::W(t)) }),
+            n => {
+                let b = match n {
+                    2 | 3 | 4 => Barrier::Bbw(p, t),
+                    5 => Barrier::Fbw(None, t),
+                    _ => Barrier::Fbw(Some(p), t),
+                };
+                self.push(ai, Op::Barrier(b));
+                self.push(ai, Op::Store { path: Path::Raw, p, i, v: Some(SP::W(t)) });
+            }
+        }
+        // forget it in the old holder
+        self.push(ai, Op::Store { path: Path::Write, p: h, i: k, v: None });
+        true
+    }
+
     /// Scenario: during a sweep, a forward barrier naming a holder the sweep has not reached yet
     /// (still black) and a fresh object that is then forgotten; followed by finish_cycle x2.
     fn scenario_barrier_in_sweep(&mut self, w: &World, ai: usize) -> bool {
@@ -241,6 +321,9 @@ impl Gen {
             return;
         }
         if w.arenas[ai].phase == b'M' && self.rng.chance(1, 3) && self.scenario_adopt_weak(w, ai) {
+            return;
+        }
+        if w.arenas[ai].phase == b'M' && self.rng.chance(1, 3) && self.scenario_move_weak(w, ai) {
             return;
         }
         if self.rng.chance(1, 14) {
@@ -510,6 +593,141 @@ impl Gen {
         self.push(ai, Op::Collect { method, cont: Cont::Drop, fault: None });
     }
 
+    /// Pacing under which every marking step pays 16 units: with a debt of 1, each `mark_debt`
+    /// call performs exactly one `mark_one` that marks or traces something.
+    fn step_pacing() -> PacingSpec {
+        PacingSpec { sleep: dy(1, 1), min_sleep: 4, mark: dy(16, 0), trace: dy(16, 0), keep: dy(0, 0), drop: dy(0, 0), free: dy(0, 0) }
+    }
+
+    /// Push an `adjust` that makes the debt exactly 1 under `step_pacing` (from the counters).
+    fn adjust_debt_to_one(&mut self, w: &World, ai: usize) -> bool {
+        let Some(m) = w.arenas[ai].metrics.as_ref() else { return false };
+        let c = m.verif_counters();
+        if c.total_gcs == 0 {
+            return false;
+        }
+        let debits = c.allocated_gcs as f64 - c.wakeup_amount + c.artificial_debt;
+        let credits = 16.0 * (c.marked_gcs as f64 + c.traced_gcs as f64);
+        match dy_exact(1.0 - (debits - credits)) {
+            Some(d) => {
+                self.push(ai, Op::Adjust(d));
+                true
+            }
+            None => false,
+        }
+    }
+
+    /// One stage of the shell-move script (see `shell_script`).  Returns false when the script
+    /// ended (or had to be abandoned because the observed state is not the expected one).
+    fn shell_script_step(&mut self, w: &World) -> bool {
+        let Some((stage, ai, b, a, t)) = self.shell_script else { return false };
+        if ai >= w.arenas.len() || !w.arenas[ai].shadow.alive || w.arenas[ai].shadow.cb.is_some() {
+            self.shell_script = None;
+            return false;
+        }
+        let cols = &w.arenas[ai].colors;
+        let col = |i: u32| cols.get(&i).map(|c| c.0);
+        match stage {
+            0 => {
+                // root.0 -> b -> a -(weak)-> t ; two full cycles: t is destructed, its shell stays
+                let leaf = self.rng.chance(1, 3);
+                self.push(ai, Op::Enter(Cb::MutateRoot));
+                self.push(ai, Op::Alloc { leaf: false, slots: vec![None, None, None] });
+                self.push(ai, Op::Alloc { leaf: false, slots: vec![None, None, None] });
+                self.push(ai, Op::Alloc { leaf, slots: if leaf { vec![] } else { vec![None, None, None] } });
+                self.push(ai, Op::Downgrade(t));
+                self.push(ai, Op::Store { path: Path::Write, p: a, i: 0, v: Some(SP::W(t)) });
+                self.push(ai, Op::Store { path: Path::Write, p: b, i: 0, v: Some(SP::S(a)) });
+                self.push(ai, Op::RootStore { i: 0, v: Some(SP::S(b)) });
+                self.push(ai, Op::Leave { panic: false });
+                self.push(ai, Op::Collect { method: Method::FinishCycle, cont: Cont::Drop, fault: None });
+                self.push(ai, Op::Collect { method: Method::FinishCycle, cont: Cont::Drop, fault: None });
+                self.shell_script = Some((1, ai, b, a, t));
+                true
+            }
+            1 => {
+                // asleep; t must be a shell now.  First marking step: wake + root trace (b queued)
+                let sh = &w.arenas[ai].shadow;
+                let shell = sh.objs.get(t as usize).map(|o| o.dropped == 1 && o.freed == 0).unwrap_or(false);
+                if !shell || w.arenas[ai].phase != b'Z' {
+                    self.shell_script = None;
+                    return false;
+                }
+                self.push(ai, Op::Pacing(Self::step_pacing()));
+                self.shell_script = Some((2, ai, b, a, t));
+                true
+            }
+            2 => {
+                if !self.adjust_debt_to_one(w, ai) {
+                    self.shell_script = None;
+                    return false;
+                }
+                self.push(ai, Op::Collect { method: Method::MarkDebt, cont: Cont::Drop, fault: None });
+                self.shell_script = Some((3, ai, b, a, t));
+                true
+            }
+            3 => {
+                // b queued (gray), a white: trace b
+                if w.arenas[ai].phase != b'M' || col(b) != Some(b'G') || col(a) != Some(b'W') {
+                    self.shell_script = None;
+                    return false;
+                }
+                if !self.adjust_debt_to_one(w, ai) {
+                    self.shell_script = None;
+                    return false;
+                }
+                self.push(ai, Op::Collect { method: Method::MarkDebt, cont: Cont::Drop, fault: None });
+                self.shell_script = Some((4, ai, b, a, t));
+                true
+            }
+            4 => {
+                // b black, a queued, t (the shell) not weakly marked: move the weak pointer a -> b
+                self.shell_script = None;
+                if w.arenas[ai].phase != b'M' || col(b) != Some(b'B') || col(a) != Some(b'G') || col(t) != Some(b'W') {
+                    return false;
+                }
+                self.push(ai, Op::Enter(Cb::Mutate));
+                self.push(ai, Op::ReadRoot(0));
+                self.push(ai, Op::Read(b, 0));
+                self.push(ai, Op::Read(a, 0));
+                match self.rng.below(7) {
+                    0 => self.push(ai, Op::Store { path: Path::Write, p: b, i: 1, v: Some(SP::W(t)) }),
+                    1 => self.push(ai, Op::Store { path: Path::Stb, p: b, i: 1, v: Some(SP::W(t)) }),
+                    n => {
+                        let bar = match n {
+                            2 | 3 | 4 => Barrier::Bbw(b, t),
+                            5 => Barrier::Fbw(None, t),
+                            _ => Barrier::Fbw(Some(b), t),
+                        };
+                        self.push(ai, Op::Barrier(bar));
+                        self.push(ai, Op::Store { path: Path::Raw, p: b, i: 1, v: Some(SP::W(t)) });
+                    }
+                }
+                self.push(ai, Op::Store { path: Path::Write, p: a, i: 0, v: None });
+                self.push(ai, Op::Leave { panic: false });
+                // finish the cycle, then query the weak pointer through its new holder
+                self.push(ai, Op::Collect { method: Method::FinishCycle, cont: Cont::Drop, fault: None });
+                self.push(ai, Op::Enter(Cb::Mutate));
+                self.push(ai, Op::ReadRoot(0));
+                self.push(ai, Op::Read(b, 1));
+                self.push(ai, Op::IsDropped(t));
+                self.push(ai, Op::Upgrade(t));
+                self.push(ai, Op::Leave { panic: false });
+                self.push(ai, Op::Collect { method: Method::FinishCycle, cont: Cont::Drop, fault: None });
+                self.push(ai, Op::Enter(Cb::Mutate));
+                self.push(ai, Op::ReadRoot(0));
+                self.push(ai, Op::Read(b, 1));
+                self.push(ai, Op::IsDropped(t));
+                self.push(ai, Op::Leave { panic: false });
+                true
+            }
+            _ => {
+                self.shell_script = None;
+                false
+            }
+        }
+    }
+
     fn top_level(&mut self, w: &World) {
         // create arenas first
         if w.arenas.len() < self.narenas {
@@ -524,6 +742,19 @@ impl Gen {
             self.done = true;
             return;
         };
+        if self.shell_script.is_some() && self.shell_script_step(w) {
+            return;
+        }
+        if matches!(self.profile, Profile::Weak | Profile::Barrier | Profile::Core | Profile::Reclaim)
+            && self.emitted + 60 < self.max_ops.max(61)
+            && self.rng.chance(1, 12)
+        {
+            let n = w.arenas[ai].shadow.objs.len() as u32;
+            self.shell_script = Some((0, ai, n, n + 1, n + 2));
+            if self.shell_script_step(w) {
+                return;
+            }
+        }
         if self.want_reclaim {
             self.want_reclaim = false;
             self.push(ai, Op::Collect { method: Method::FinishCycle, cont: Cont::Drop, fault: None });
